@@ -1,7 +1,7 @@
 (* Props_C13.v — C13: profile tests flag both points of an inverted pair, in either cast direction.
    Only statements, `exact <lemma>` and Print Assumptions.
    (statements written out by tools/mk_props.py from the lemmas they restate) *)
-From IoosQc Require Import Base Generated Density DensityProofs Skel SkelBase SkelP_density Arr Gen ArrBase ArrP_density GenBase GenP_density.
+From IoosQc Require Import Base Generated Density DensityProofs Skel SkelBase SkelP_density Arr Gen ArrBase ArrP_density GenBase GenP_density SkelP_pressure.
 
 
 (* density_inversion_test: for ALL profiles, lengths, missing placements in density and depth and all threshold options the operational model equals the per-point specification (no hypothesis) *)
@@ -342,6 +342,15 @@ Theorem C13_source_program :
            density_model st ft rho z = Flags fl.
 Proof. exact (@gen_density). Qed.
 Print Assumptions C13_source_program.
+
+(* TRANSLATOR TIE: the model of pressure_increasing_test is the flag skeleton generated from the current source (flags[np.where(delta <= 0)[0] + 1] = SUSPECT, read as the view flags[1:][delta <= 0]) run on the model's (possibly sign-flipped) difference array, from all GOOD *)
+Theorem C13_source_skeleton_pressure :
+  forall ps : list obs,
+         pressure_model ps =
+         Flags
+           (run_steps (env_pressure ps) skel_pressure_increasing_test (all_flags (length ps) GOOD)).
+Proof. exact (@skel_pressure). Qed.
+Print Assumptions C13_source_skeleton_pressure.
 
 Theorem C13_assign_order :
   assign_order_density_inversion_test = [UNKNOWN; SUSPECT; SUSPECT; FAIL; FAIL; MISSING; MISSING] /\ assign_order_pressure_increasing_test = [SUSPECT].
